@@ -171,6 +171,21 @@ def run_cqd(case):
         if abs(res3.scores[it] - want) > 1e-9 * max(1.0, abs(want)):
             return Failure("oracle", f"[C06] cqd_score with drawn target points, iteration {it}: {res3.scores[it]!r} but the "
                            f"formula on the reported target points gives {want!r}")
+    # many target points (more than any internal block size an implementation might process them in)
+    if case.get("case_index", 0) % 4 == 0:
+        nt = 1024 + 1 + (case.get("case_index", 0) // 4) % 700
+        res4 = arch.cqd_score(1, nt, pens, obj_min, obj_max, dist_max=float(F(c["dist_max"])), dist_ord=ordv)
+        tp = np.asarray(res4.target_points)
+        if tp.shape != (1, nt, len(case["lo"])):
+            return Failure("oracle", f"[C06] cqd_score(target_points={nt}): reported target points of shape {tp.shape}")
+        want = 0.0
+        for pen in pens:
+            dd = np.stack([np.linalg.norm(d["measures"] - pt, ord=ordv, axis=1) for pt in tp[0]])   # (nt, elites)
+            want += float(np.sum(np.max(d["objective"][None, :] / (obj_max - obj_min)
+                                        - pen * dd / float(F(c["dist_max"])), axis=1)))
+        if abs(res4.scores[0] - want) > 1e-9 * max(1.0, abs(want)):
+            return Failure("oracle", f"[C06] cqd_score with {nt} target points: {res4.scores[0]!r} but the formula summed "
+                           f"over all {nt} reported target points gives {want!r}")
     # model
     drv = Driver("cqd")
     try:
